@@ -74,9 +74,9 @@ CLAIMS = {
         note="Assumed: ArrayVec shim (bounded sequence) in Verus, real arrayvec in Kani; cmp::min spec. The length harness (5 min) and prefix harness run in the thorough tier; quick relies on the Verus proof plus the bounds/distinctness harnesses."),
     "C25": dict(
         category="proof", design_ref="§4 C25 / U04",
-        technique="Verus contracts on ExpectedVersion/CurrentVersion/VersionGap methods and validate_partition_sequence against one spec function `accepts`; caller lemmas checked against callee contracts",
+        technique="Verus contracts on ExpectedVersion/CurrentVersion/VersionGap methods and validate_partition_sequence against one spec function `accepts` (caller lemmas checked against callee contracts) + complete Kani/CBMC harnesses over all u64 values for the same contract + Kani on the real std for the keyword Display/FromStr",
         text="Every method of the expected-version algebra and the store's own partition-sequence check are extracted verbatim and proved against the single spec `accepts(e,c)`: gap_from reports the saturating signed distance and is None iff accepts; is_satisfied_by == accepts == (store check is Ok); from/into_next_version mutually inverse incl. u64::MAX; no overflow anywhere (all u64 values).",
-        note="Not decided by proof: Display/FromStr round trip (Verus does not read write!/str; checked only by the replay driver's boundary search when a violation is being reproduced). CurrentVersion::next assumes the version is below u64::MAX (environment). Derives assumed structural."),
+        note="Display/FromStr: the keyword clause is decided by Kani on the real std (bounded: the three keywords exhaustively, sample digit strings); Exact(v) goes through u64's own Display/FromStr, assumed mutually inverse (std). CurrentVersion::next assumes the version is below u64::MAX (environment). Derives assumed structural. The Kani harnesses carry the same contract and decide the unit when the Verus front end rejects a changed text."),
     "C26": dict(
         category="proof", design_ref="§4 C26 / U11",
         technique="Verus on the extracted breaker with havocked atomics (every load/fetch_add arbitrary => all interleavings) for panic-freedom; Kani complete per-method harnesses over arbitrary state with real std atomics for the sequential counting contracts",
@@ -85,6 +85,11 @@ CLAIMS = {
 }
 
 NOT_APPLICABLE = {
+    "C02": "not decided in this build: the Kani harness for WriterSet::validate_event_versions (units/U12, real text against the model HashMap) runs CBMC out of memory even at 2 events / 3 streams, Verus rejects its hash_map::Entry matching, and handle_write needs the whole writer environment; the partition-sequence half (validate_partition_sequence == accepts == is_satisfied_by) is proved under C25 (DESIGN A.3)",
+    "C05": "not decided in this build: Writer::open's recovery-scan harness exceeds CBMC's memory (Vec-based reader) and Open*Index::hydrate was not brought under contract; only exercised by the real-file replay driver (DESIGN A.3, A.4)",
+    "C07": "not decided in this build: the watermark gates sit inside async actor handlers (slices R4/R5 not built); only AtomicWatermark::can_read(s) == (s < get()) is under contract, reported under C08 (DESIGN A.3)",
+    "C13": "not decided in this build: Kani does not return on the 64-bit symbolic modulo of the placement functions (> 20 min even for N <= 3) and a Verus contract relating AppConfig::assigned_buckets (contiguous ranges) to the topology (bucket % N) was not built; the mismatch is listed as a candidate in DESIGN §10/A.5, not as a finding of a check",
+    "C22": "not decided in this build: the response-construction slices of the async request handlers (R4/R5) were not built (DESIGN A.3)",
     "C06": "crash between sealing a segment and the background index flush: recovery of a missing/short index is not a function of the code base (DatabaseBuilder::open propagates the error), runs across a rayon pool; no contract on an existing function expresses it (DESIGN §9)",
     "C10": "cross-node agreement under message loss/reordering/crash schedules of async actors: protocol-level inductive invariant, out of reach of per-function contracts (Verus has no async, Kani no threads/network); sequential building blocks are covered under C02/C08/C12 (DESIGN §9)",
     "C11": "quorum durability across nodes: same schedule/fault quantifier as C10 (DESIGN §9)",
